@@ -18,6 +18,7 @@ import (
 	"verifharness/mon"
 	"verifharness/refbmc"
 
+	"github.com/cenkalti/backoff/v4"
 	"github.com/gebn/bmc"
 	"github.com/gebn/bmc/pkg/ipmi"
 	"github.com/google/gopacket"
@@ -186,6 +187,9 @@ func c17Exec(run *ev.Run, c ev.Case) {
 				for _, oc := range []string{"ok", "cc:c1", "ccb:d4", "trunc", "garbage-then-ok", "busy-then-ok", "lost", "refused", "request-lost"} {
 					for _, inSess := range []bool{false, true} {
 						c17ConnPair(run, c17Conn{First: b.Count, Second: second, FirstOutcome: oc, InSession: inSess, Suite: (b.Count + second) % 9, ReuseCmd: b.Count == second, Seed: b.Seed})
+						if oc == "ok" && second%3 == 0 {
+							c17ConnPair(run, c17Conn{First: b.Count, Second: second, FirstOutcome: "busy-giveup", SecondOutcome: "busy-then-ok", InSession: inSess, Suite: (b.Count + second) % 9, ReuseCmd: b.Count == second, Seed: b.Seed})
+						}
 						if oc == "ok" || oc == "ccb:d4" {
 							for _, so := range []string{"empty", "cc:c1", "trunc", "busy-then-ok", "garbage-then-ok", "lost-then-ok"} {
 								if so == "lost-then-ok" && inSess {
@@ -317,6 +321,10 @@ func c17ConnPair(run *ev.Run, o c17Conn) {
 		cfg := defaultCfg(rng(o.Seed, "c17cfg"))
 		se := NewScriptEnv(cfg, memtr.Window)
 		se.Strict = true
+		if o.FirstOutcome == "busy-giveup" {
+			// a retry policy with a count (three retries per command), on the used and on the fresh connection alike
+			se.ST = bmc.VerifNewV2SessionlessTransport(se.T, 10*time.Second, backoff.WithMaxRetries(&backoff.ZeroBackOff{}, 3))
+		}
 		var conn bmc.Connection = se.ST
 		if o.InSession {
 			ctx, cancel := se.LimitCtx(20)
@@ -335,6 +343,8 @@ func c17ConnPair(run *ev.Run, o c17Conn) {
 				script = []string{"garbage:noise"}
 			case "busy-then-ok":
 				script = []string{"busy"}
+			case "busy-giveup":
+				script = []string{"busy", "tmo", "busy", "busy", "busy", "busy", "busy", "busy"}
 			}
 			min := 1
 			if sp := c17SpecFor(c17Cmds[o.First]); sp != nil {
